@@ -3,7 +3,9 @@ import Pcore.Model.DescribeSig
 /-!
   Driver op of C19 for the STRUCTURE of the mismatch description (syntax in harness/c19/descs.go):
 
-    descs E A          → empty | fault | <item> <item> …        px.DescribeMismatch("x", E, A), one item per reported mismatch
+    descs E A          → empty | fault | <ITEM> … ;; <item> …    one ITEM per mismatch of px.VerifDescribe("x", E, A) (the structured result:
+                                                               tm / pm carry the FULL expected and actual type terms), then one item
+                                                               per line of px.DescribeMismatch("x", E, A) (tm / pm carry head names)
     descx E A K PATH   → the same line (K and PATH — the mismatch the generator planted — are read by the harness only)
 
     item ::= (tm PATH (HEAD*) HEAD) | (pm PATH t|f HEAD HEAD) | (sz PATH LO HI LO HI) | (cnt PATH LO HI LO HI)
@@ -53,6 +55,22 @@ def itemStr : Mismatch → String
   | .sizeMismatch p e a => s!"(sz {pathStr p} {rng2 e} {rng2 a})"
   | .countMismatch p e a => s!"(cnt {pathStr p} {rng2 e} {rng2 a})"
 
+/-! the FULL payloads (structured observation through the hook px.VerifDescribe): type terms in the syntax of harness/lat/doc.go; the two
+    members of RichData outside the term language are the atoms `typeset` / `deferred`; a Variant — given or built by a merge — is `(var …)` -/
+def atomFull : Atom → String
+  | .ty t => Lat.tyStr t
+  | .typeSet => "typeset"
+  | .deferred => "deferred"
+
+def expFull : Exp → String
+  | .atom x => atomFull x
+  | .merged ms => "(var" ++ String.join (ms.map fun x => " " ++ atomFull x) ++ ")"
+
+def itemFull : Mismatch → String
+  | .typeMismatch p e a => s!"(tm {pathStr p} {expFull e} {Lat.tyStr a})"
+  | .patternMismatch p e a => s!"(pm {pathStr p} {Lat.tyStr e} {Lat.tyStr a})"
+  | m => itemStr m
+
 def insertKey (x : Path × String) : List (Path × String) → List (Path × String)
   | [] => [x]
   | y :: ys => if x.2 < y.2 then x :: y :: ys else y :: insertKey x ys
@@ -67,10 +85,11 @@ partial def sortRuns : List Mismatch → List Mismatch
   | m :: rest => m :: sortRuns rest
   | [] => []
 
+/-- `<structure: items with full payloads> ;; <what the text keeps: items with head names>` -/
 def render : Res → String
   | .fault _ => "fault"
   | .ok [] => "empty"
-  | .ok ms => " ".intercalate ((sortRuns ms).map itemStr)
+  | .ok ms => " ".intercalate ((sortRuns ms).map itemFull) ++ " ;; " ++ " ".intercalate ((sortRuns ms).map itemStr)
 
 def descs (e a : Sexp) : String :=
   if hasAlias e || hasAlias a then "alias" else
